@@ -1,5 +1,5 @@
 #!/bin/sh
-# usage: run_benign.sh [budget scale]
+# usage: run_benign.sh [budget scale] [file prefix]
 # Silence test: applies each property-PRESERVING change in selftest/benign/ to /repo, runs all five
 # quick checks, undoes it. Every check must exit 0 and print no VIOLATION line: these changes alter
 # observable behaviour (headers, messages, code structure, a correct cache) without breaking a property.
@@ -8,7 +8,7 @@ cd /verif || exit 2
 if [ -n "$(git -C /repo status --porcelain)" ]; then echo "/repo is dirty; refusing" >&2; exit 2; fi
 SAVE=$(mktemp -d /verif/.cache/evsave.XXXXXX); cp -a evidence/. "$SAVE"/ 2>/dev/null
 bad=0
-for d in selftest/benign/*.diff; do
+for d in selftest/benign/${2:-}*.diff; do
   git -C /repo apply "/verif/$d" || { echo "apply failed: $d"; bad=1; continue; }
   for id in C03 C05 C13 C15 C16; do
     VERIF_BUDGET_SCALE=$SCALE ./check.sh $id quick > /tmp/benign-run.log 2>&1; code=$?
